@@ -362,6 +362,24 @@ Section Transp.
         unfold opnd. rewrite <- Ha, (Hall v Hin). apply Hs. now apply Hall.
   Qed.
 
+  (* transposing a one-element tensor changes nothing *)
+  Lemma transpose_all1 q (x : T) : is_perm q -> length q = length (shape x) -> all1 (shape x) = true -> teq (transpose q x) x.
+  Proof.
+    intros Hq Hl H1. assert (Hg : all1 (gather 0 q (shape x)) = true) by (rewrite all1_gather; auto).
+    assert (Hs : gather 0 q (shape x) = shape x).
+    { rewrite (all1_eq_repeat _ Hg). rewrite (all1_eq_repeat _ H1) at 2. now rewrite gather_length, Hl. }
+    split; cbn [transpose shape at_]; [exact Hs|]. intros idx Hi.
+    rewrite Hs in Hi. rewrite (in_range_all1 _ _ H1 Hi). rewrite <- Hl.
+    rewrite gather_zeros by (now apply inv_perm_lt). now rewrite inv_perm_length.
+  Qed.
+  Lemma tfull_all1_teq p (v w : T) : is_perm p -> tfull p v w -> all1 (shape v) = true -> teq v w.
+  Proof.
+    intros Hp [Ht Hl] H1. eapply teq_trans; [exact Ht|]. apply transpose_all1; auto.
+    destruct (trel_facts p v w Hp (or_introl (conj Ht Hl))) as (Ha & _). now rewrite <- Ha.
+  Qed.
+  Lemma trel_all1_teq p (v w : T) : is_perm p -> trel p v w -> all1 (shape v) = true -> teq v w.
+  Proof. intros Hp [H|[_ H]] H1; [now apply (tfull_all1_teq p) | exact H]. Qed.
+
   (* a transposed tensor has the same elements *)
   Lemma transpose_occurs p (w : T) a : is_perm p -> length p = length (shape w) -> occurs a (transpose p w) -> occurs a w.
   Proof.
